@@ -538,6 +538,10 @@ def multi_file_cases(ctx, wd):
                 elif r[:2] != base[:2]:
                     if alias_missing(prog, r[2]):
                         sig = f"{route}:module-alias-not-resolvable"
+                    elif (lm := re.search(r"^\s*needs\s+(math|io|string|fs|net|sys|time|bytes|convert)\b(?!\.)", prog, flags=re.M)) and (lm.group(1) + ".aelys") in files:
+                        # `needs math` with a math.aelys next to the entry file: the saved program only says `math::..`,
+                        # and the bytecode route tries std.<name> before a script module of that name
+                        sig = f"{route}:local-module-shadowed-by-std"
                     elif miss and re.search(r"needs\s+(?:\w+\s*(?:,\s*\w+\s*)*from\s+)?(?!std\.)(\w+\.)+" + re.escape(miss.group(1)) + r"\b", "\n".join(files.values())):
                         sig = f"{route}:module-path-not-resolvable"       # `needs utils.helpers`: the saved program asks for `helpers`
                     elif (u := re.search(r"undefined variable '(\w+)", r[2])) and re.search(r"needs\s+[\w\s,]*\b" + re.escape(u.group(1)) + r"\b[\w\s,]*\sfrom\s+(?!std\.)", prog):
